@@ -330,7 +330,7 @@ def _model(chk: Check, big, fuzz_len):
     cfgp = os.path.join(chk.scratch, "ht-empty.cfg")
     with open(cfgp, "w") as f:
         f.write(_cfg("Spec", False, True, 1, invs))
-    res = common.run_tlc(os.path.join(common.SPECS, "HumanText_MBT.tla"), cfgp, workers=4, scratch=chk.scratch)
+    res = common.run_tlc(os.path.join(common.SPECS, "HumanText_MBT.tla"), cfgp, workers=1, scratch=chk.scratch)
     chk.add_tlc(res, "HumanText laws with empty blocks")
     if not res.ok:
         only_structure = res.violated == ["StructurePreserved"]
@@ -431,6 +431,17 @@ def run(chk: Check):
         "literal syntax inside a value is not modelled; it is observed through the equality of the two datagram bodies "
         "(bodies longer than 240 bytes are compared by the recorder and carried as a flag)",
     ]
+    pend = c12.Pending(chk)
+    direct = chk.violation
+    chk.violation = pend.violation
+    try:
+        _run(chk)
+    finally:
+        chk.violation = direct
+        pend.flush()
+
+
+def _run(chk: Check):
     if chk.tier == "quick":
         _model(chk, False, 4)
         _texts(chk, 3, 3)
